@@ -158,11 +158,14 @@ def eval_close(ctx, ckey, attr, table, script=(), disk=None):
     """Run `script` (list of (method, target name)) then close(); returns the recorded event list or an error string."""
     ci, obj = store_object(ctx, ckey, attr, table)
     events = []
-    interp = PureInterp(ctx, hooks=file_hooks(events, disk))
+    hooks = file_hooks(events, disk)
+    hooks["attr:submit_target"] = lambda recv, target, ids: tok("NEW_" + getattr(target, "name", "?"))
+    interp = PureInterp(ctx, hooks=hooks)
     interp.events = events
     try:
         for meth, tname in script:
-            interp.call(ctx.index.method(ci, meth), (Obj("target", name=tname, spec=tok("SPEC_" + tname)),), {}, self_obj=obj)
+            args = (Obj("target", name=tname, spec=tok("SPEC_" + tname)),) + (([],) if meth == "submit" else ())
+            interp.call(ctx.index.method(ci, meth), args, {}, self_obj=obj)
         interp.call(ctx.index.method(ci, "close"), (), {}, self_obj=obj)
     except (Raised, Unsupported) as exc:
         return None, f"{exc}", obj
@@ -468,7 +471,7 @@ class PathTok(str):
     """A symbolic pathlib.Path: a string token with joinpath/parent/mkdir modelled by hooks."""
 
 
-def eval_cli_main(ctx, found=True, flag_backend=None, flag_no_color=None, config=None, env=None):
+def eval_cli_main(ctx, found=True, flag_backend=None, flag_no_color=None, config=None, env=None, decline=False, verbose="info"):
     """Evaluate gwf.cli:main on symbolic inputs; every external effect is a recorded event.
 
     Returns (result dict, None) or (None, reason)."""
@@ -482,7 +485,8 @@ def eval_cli_main(ctx, found=True, flag_backend=None, flag_no_color=None, config
     defaults = dict(ctx.ev.eval_global("gwf.conf", "CONFIG_DEFAULTS"))
     from collections import ChainMap
     cfg = ChainMap(config, defaults)
-    res = {"events": events, "mkdir": [], "config_path": None, "colour_disabled": False, "context": None, "init": None, "prompt": False}
+    res = {"events": events, "mkdir": [], "mkdir_kw": [], "config_path": None, "colour_disabled": False, "context": None, "init": None, "prompt": False, "raised": None,
+           "logging": None}
 
     def h_find(path_spec="workflow.py:gwf"):
         events.append(("find_workflow", path_spec))
@@ -495,6 +499,7 @@ def eval_cli_main(ctx, found=True, flag_backend=None, flag_no_color=None, config
 
     def h_mkdir(recv, *a, **k):
         res["mkdir"].append(str(recv))
+        res["mkdir_kw"].append(dict(k))
         events.append(("mkdir", str(recv)))
 
     def h_load(path):
@@ -505,6 +510,10 @@ def eval_cli_main(ctx, found=True, flag_backend=None, flag_no_color=None, config
     def h_confirm(*a, **k):
         res["prompt"] = True
         events.append(("prompt",))
+        if decline:
+            if k.get("abort"):
+                raise Raised("Abort", "prompt declined")
+            return False
         return True
 
     def h_init(d):
@@ -520,7 +529,7 @@ def eval_cli_main(ctx, found=True, flag_backend=None, flag_no_color=None, config
         "os.path.realpath": lambda p_, *a, **k: PathTok(tok("symlinks-resolved:" + str(p_))),
         "pathlib.Path.cwd": lambda: PathTok(tok("CWD")),
         "gwf.conf.FileConfig.load": h_load,
-        "gwf.cli.configure_logging": lambda *a, **k: events.append(("logging", a, k)),
+        "gwf.cli.configure_logging": lambda *a, **k: (events.append(("logging", a, k)), res.__setitem__("logging", list(a) + list(k.values())))[0],
         "gwf.backends.base.guess_backend": lambda: (10, tok("GUESSED")), "gwf.backends.guess_backend": lambda: (10, tok("GUESSED")),
         "os.getenv": lambda k, d=None: env.get(k, d), "os.environ.get": lambda k, d=None: env.get(k, d),
         "click.confirm": h_confirm, "gwf.cli.init": h_init,
@@ -528,12 +537,23 @@ def eval_cli_main(ctx, found=True, flag_backend=None, flag_no_color=None, config
     interp = PureInterp(ctx, hooks=hooks)
     cobj = Obj("click_ctx", obj={})
     try:
-        interp.call(main, (cobj, "workflow.py:gwf", flag_backend, "info", flag_no_color))
-    except (Raised, Unsupported) as exc:
+        interp.call(main, (cobj, "workflow.py:gwf", flag_backend, verbose, flag_no_color))
+    except Raised as exc:
+        res["raised"] = exc.kind  # an outcome of the evaluated code, not a limitation of the evaluator
+    except Unsupported as exc:
         return None, f"{type(exc).__name__}: {exc}"
     for e in interp.events:
         if e[0] == "setattr" and e[1].endswith("isatty"):
-            res["colour_disabled"] = True
+            lam = e[2]
+            val = None
+            if isinstance(lam, tuple) and lam and lam[0] == "lambda":
+                try:
+                    val = interp.eval(lam[1].body, {a.arg: None for a in lam[1].args.args}, lam[2])
+                except (Raised, Unsupported):
+                    val = None
+            res["colour_disabled"] = val is False or val is None and not isinstance(lam, tuple)
+            if val is True:
+                res["colour_disabled"] = False
     o = cobj.obj
     if isinstance(o, Obj):
         res["context"] = {k: (str(v) if isinstance(v, str) else v) for k, v in o._kwargs.items()}
@@ -550,6 +570,11 @@ def cli_main_location_witness(ctx):
         if err:
             return n, diffs, err
         n += 1
+        if res["raised"]:
+            diffs.append(f"workflow {'found' if found else 'not found'}: the group callback ends with {res['raised']}")
+            continue
+        if any(k.get("exist_ok") is not True for k in res["mkdir_kw"]):
+            diffs.append("the state directories are created without exist_ok=True: every invocation after the first fails with FileExistsError")
         want_mk = {base + "/.gwf", base + "/.gwf/logs"}
         if set(res["mkdir"]) != want_mk:
             diffs.append(f"workflow {'found' if found else 'not found'}: the group callback creates {sorted(res['mkdir'])}, expected {sorted(want_mk)}")
@@ -568,6 +593,14 @@ def cli_main_location_witness(ctx):
         ev = [e[0] for e in res["events"]]
         if not found and "prompt" in ev and "init" in ev and ev.index("prompt") > ev.index("init"):
             diffs.append("the project skeleton is written before the prompt is confirmed")
+    # the user declines the offer to create a project: nothing may be created
+    res, err = eval_cli_main(ctx, found=False, decline=True)
+    if err:
+        return n, diffs, err
+    n += 1
+    if res["raised"] != "Abort" or res["init"] or res["mkdir"]:
+        diffs.append(f"no workflow file and the prompt declined: the callback {'ends with ' + str(res['raised']) if res['raised'] else 'continues'}, "
+                     f"initialises {res['init']} and creates {res['mkdir']}; expected click.Abort with nothing created")
     return n, diffs, None
 
 
@@ -581,6 +614,9 @@ def cli_main_precedence_witness(ctx):
             if err:
                 return n, diffs, err
             n += 1
+            if res["raised"]:
+                diffs.append(f"--backend={fb}, config backend={cb}: the group callback ends with {res['raised']}")
+                continue
             want = fb or cb or tok("GUESSED")
             got = (res["context"] or {}).get("backend")
             if got != want:
@@ -595,10 +631,20 @@ def cli_main_precedence_witness(ctx):
                 if err:
                     return n, diffs, err
                 n += 1
+                if res["raised"]:
+                    diffs.append(f"--no-color flag={fc}, config no_color={cc}, NO_COLOR={'set' if env else 'unset'}: the group callback ends with {res['raised']}")
+                    continue
                 want = fc if fc is not None else (cc if cc is not None else bool(env))
                 if bool(res["colour_disabled"]) != bool(want):
                     diffs.append(f"--no-color flag={fc}, config no_color={cc}, NO_COLOR={'set' if env else 'unset'}: colours "
                                  f"{'disabled' if res['colour_disabled'] else 'enabled'}, expected {'disabled' if want else 'enabled'}")
+    # the verbosity flag reaches the logging set-up
+    res, err = eval_cli_main(ctx, verbose="debug")
+    if err:
+        return n, diffs, err
+    n += 1
+    if "debug" not in (res["logging"] or []):
+        diffs.append(f"--verbose debug: logging is configured with {res['logging']}; the flag's value does not reach configure_logging")
     return n, diffs, None
 
 
@@ -625,7 +671,11 @@ def create_backend_witness(ctx):
         interp = PureInterp(ctx, hooks=hooks)
         try:
             out = interp.call(cb, (sel, PROJ, Obj("config")))
-        except (Raised, Unsupported) as exc:
+        except Raised as exc:
+            n += 1
+            diffs.append(f"create_backend({sel!r}, ...) ends with {exc.kind} ({exc.detail[:60]})")
+            continue
+        except Unsupported as exc:
             return n, diffs, f"{type(exc).__name__}: {exc}"
         n += 1
         want = (sel, (), {"working_dir": PROJ, "opt_of_backend." + sel: "V"})
